@@ -206,7 +206,8 @@ def run(ctx):
                 exp = expected_groups(all_groups, ids, cls_of, set(cls_of) - under if False else None, got_files, under)
                 not_allowed = {p for p in not_allowed if p in exp["must_be_present"]}
             if not_allowed:
-                # K5 class: the other links (hard links, or -S symlinks: same file id) of the failing representative are
+                # the former K5 class (repaired in rehash: the run of an inode now tries its members in turn; a plain violation
+                # since then): the other links (hard links, or -S symlinks: same file id) of the failing representative are
                 # dropped with it; with the default filter their class may then fall below the threshold as a consequence
                 k5_rest = not_allowed - sib_links
                 if not mode and sib_links:
